@@ -330,6 +330,18 @@ def run_battery(pid: str, ctx, repo, mod, root: str):
     if files:
         variants.append(('twin:reprint-consulted-files (ast.unparse: comments, layout and quoting change)', 'twin', None, reformat_twin(repo, files, rename=False)))
         variants.append(('twin:rename-every-local-variable-in-consulted-files', 'twin', None, reformat_twin(repo, files, rename=True)))
+    # refactorings written by independent reviewers as behaviour-preserving (seeded/twins/*): the verdict must not change
+    # (the number of obligations may: a helper was extracted, two functions were merged)
+    for tp in sorted(glob.glob(os.path.join(VERIF, 'seeded', 'twins', '*', 'patch.diff'))):
+        tname = os.path.basename(os.path.dirname(tp))
+        try:
+            ov = apply_patch(repo, open(tp).read())
+        except Stale as e:
+            stale.append({'control': 'reviewer-twin:' + tname, 'why': str(e)})
+            continue
+        if not (set(ov) & set(files)):
+            continue            # touches nothing this property's check looks at
+        variants.append(('reviewer-twin:' + tname, 'rtwin', None, ov))
     only = os.environ.get('SA_ONLY_CONTROL')
     if only:
         variants = [v for v in variants if only in v[0]]
@@ -366,12 +378,12 @@ def run_battery(pid: str, ctx, repo, mod, root: str):
                 rec['result'] = 'TWIN-ERROR'
                 rec['by'] = [r['error']]
                 failures.append(f'twin {name}: {r["error"]}')
-            elif viol != base_viol or r['n'] != base_n:
+            elif viol != base_viol or (r['n'] != base_n and kind != 'rtwin'):
                 rec['result'] = 'TWIN-CHANGED-VERDICT'
                 rec['by'] = [f'{a} {b}' for a, b in sorted(viol ^ base_viol)[:4]] + [f'obligations {base_n} -> {r["n"]}']
                 failures.append(f'twin {name} changed the verdict: {rec["by"]}')
             else:
-                rec['result'] = 'silent (same verdict, same obligations)'
+                rec['result'] = 'silent (same verdict, same obligations)' if kind != 'rtwin' else f'silent (same verdict; obligations {base_n} -> {r["n"]})'
         ctx.controls.append(rec)
         print(f"  control {name} [{kind}]: {rec['result']}" + (f" <- {rec['by'][0][:140]}" if rec.get('by') else ''))
     for s in stale:
